@@ -280,6 +280,8 @@ def run_shard(spec):
         restart_lane(st, rng, 4 if quick else 40)
     if spec["shard"] % 4 == 0:
         node_lane(st, rng, 3 if quick else 40, 12)
+    if spec["shard"] % 4 == 2:
+        route_lane(st.v, st.c, rng, 3 if quick else 20, dict(cstream.C02_CLASSES), "c02r")
     res = st.result()
     res["evaluations"] += d.c["by_itself_calls"] + d.c["in_state_calls"] + d.c["reward_calls"]
     res["digests"] = sorted(set(res["digests"]) | d.digests)
@@ -401,6 +403,18 @@ def restart_lane(st, rng, nworlds, replay_world=None):
                 st.v("unspent-total-grew-beyond-subsidy-after-restart", "in the chain state rebuilt from the block store the unspent total "
                      "after block h=%d is %d, after its parent %d, subsidy %d" % (rb.height, tot, ptot, ref.subsidy(rb.height)), w)
                 break
+
+
+def route_lane(add_violation, counters, rng, nhist, classes, tag):
+    """this property on the routes by which a RUNNING NODE takes blocks (relay and download, real store): histories in which the
+    node had asked a peer for blocks, blocks were announced, arrived unrequested, late, before their parent, or again with another
+    body (the stories of skv/props/c09.py), built from this check's classes of rule-breaking blocks"""
+    from skv.props import c09
+    mon = c09.route_histories(rng, nhist, 14, classes, tag)
+    counters["route_lane_deliveries"] = counters.get("route_lane_deliveries", 0) + mon.c.get("deliveries", 0)
+    counters["route_lane_stories"] = counters.get("route_lane_stories", 0) + mon.c.get("download_route_stories", 0)
+    for v in mon.viol:
+        add_violation("node-route:" + v["key"], v["msg"], v["witness"])
 
 
 def finalize(m, tier):
